@@ -139,6 +139,9 @@ class eval_abs(object):
 
     def __init__(self, vars, func_read = None, func_write = None, log = None):
         self.pool = mpool()
+        # expressions returned by eval_expr are marked "already evaluated" with
+        # this token; the mark of another machine does not count
+        self.eval_mark = object()
         for v in vars:
             self.pool[v] = vars[v]
         self.func_read = func_read
@@ -304,13 +307,13 @@ class eval_abs(object):
     def eval_expr(self, e, eval_cache):
         if e.is_term:
             return e
-        if e.is_eval:
+        if e.is_eval is self.eval_mark:
             return e
         if e in eval_cache:
             return eval_cache[e]
         e = e.visit(expr_simp)
         ret = self.eval_expr_no_cache(e, eval_cache)
-        ret.is_eval = True
+        ret.is_eval = self.eval_mark
         if not isinstance(e, ExprInt):
             eval_cache[e] = ret
         return ret
